@@ -58,9 +58,39 @@ func c31Case(c *ev.Ctx, r *rand.Rand, caseN int) {
 	sort.Slice(dots, func(i, j int) bool { return dots[i].X < dots[j].X })
 	n = len(dots)
 	var f func(uint64) uint64
-	if p, _ := ev.Try(func() { f = piecefunc.NewFunc(append([]piecefunc.Dot{}, dots...)) }); p != nil {
+	// the dot list is handed over as a prefix of a larger table; what lies behind it is the caller's
+	table := make([]piecefunc.Dot, n, n+3)
+	copy(table, dots)
+	sentinelDot := piecefunc.Dot{X: 424242, Y: uint64(caseN)}
+	tailDots := table[n : n+3]
+	for k := range tailDots {
+		tailDots[k] = sentinelDot
+	}
+	if p, _ := ev.Try(func() { f = piecefunc.NewFunc(table) }); p != nil {
 		c.Violation("valid-dots-rejected", map[string]interface{}{"case": caseN, "dots": fmt.Sprint(dots), "panic": fmt.Sprint(p)})
 		return
+	}
+	for k := range tailDots {
+		if tailDots[k] != sentinelDot {
+			c.Violation("valid-dots-rejected", map[string]interface{}{"case": caseN, "dots": fmt.Sprint(dots), "why": fmt.Sprintf("NewFunc wrote into the caller's array behind the dot list (slot +%d)", k)})
+			return
+		}
+	}
+	for k := range dots {
+		if table[k] != dots[k] {
+			c.Violation("valid-dots-rejected", map[string]interface{}{"case": caseN, "dots": fmt.Sprint(dots), "why": "NewFunc changed the caller's dots"})
+			return
+		}
+	}
+	if n > 2 {
+		// a second function over a shorter prefix of the same table must not disturb the first
+		_, _ = ev.Try(func() { _ = piecefunc.NewFunc(table[:2]) })
+		for k := range dots {
+			if table[k] != dots[k] {
+				c.Violation("valid-dots-rejected", map[string]interface{}{"case": caseN, "dots": fmt.Sprint(dots), "why": fmt.Sprintf("building a function from table[:2] changed table[%d], a dot of the function built before", k)})
+				return
+			}
+		}
 	}
 	fail := func(class string, x, y uint64, extra string) {
 		c.Violation(class, map[string]interface{}{"case": caseN, "dots": fmt.Sprint(dots), "x": x, "f(x)": y, "detail": extra})
